@@ -413,7 +413,12 @@ func (em *emitter) assignValuesToAddresses(addresses []address, values []ast.Exp
 		types := make([]reflect.Type, len(values))
 		ks := make([]bool, len(values))
 		for i := range values {
-			types[i] = em.typ(values[i])
+			// As for a single value, emit the value with the type of the
+			// target so that it is converted, if necessary, to an interface.
+			types[i] = addresses[i].targetType()
+			if types[i] == nil {
+				types[i] = em.typ(values[i])
+			}
 			regs[i] = em.fb.newRegister(types[i].Kind())
 			em.emitExprR(values[i], types[i], regs[i])
 		}
